@@ -2,9 +2,12 @@
 C02 — Compression is transparent, lossless and atomically published (src/spikeglx.py:
 `Reader.compress_file`, `decompress_file`, `decompress_to_scratch`, `Reader.__init__`/`open`).
 
-Property theorems only; the model is `Model/FsCompress.lean` (file-state machine with fault points) and
-`Model/ChunkRead.lean` (chunked read path), helper lemmas are in `Lemmas/FsCompress.lean`,
-`Lemmas/ChunkRead.lean`.
+Property theorems only; the model is `Model/FsCompress.lean` (file-state machine with fault points),
+`Model/FsCompressEffects.lean` (the ORDER of file-system effects of the three functions as call lists — tied to the source
+text by `Tie/C02.lean` — and their refinement into primitive effects; interruption between any two effects),
+`Model/FsCompressPath.lean` (path-name logic: `with_suffix`, `is_mtscomp`, companion files) and
+`Model/ChunkRead.lean` (chunked read path); helper lemmas are in `Lemmas/FsCompress.lean`, `Lemmas/FsCompressEffects.lean`,
+`Lemmas/FsCompressPath.lean`, `Lemmas/ChunkRead.lean`.
 
 Quantifiers.  `α`/`γ`: arbitrary types of uncompressed / compressed chunks; `c : Codec α γ` an arbitrary
 codec with the contract `c.Lossless : ∀ a, dec (enc a) = a`; `b : List α` an arbitrary recording (any
@@ -14,6 +17,8 @@ arbitrary chunk; `s` an arbitrary directory (every existence pattern of every fi
 -/
 import IblVerif.Lemmas.FsCompress
 import IblVerif.Lemmas.ChunkRead
+import IblVerif.Lemmas.FsCompressEffects
+import IblVerif.Lemmas.FsCompressPath
 
 namespace IblVerif.C02
 open IblVerif.FsCompress IblVerif.ChunkRead
@@ -429,6 +434,203 @@ theorem torn_bin_recompressed_counterexample :
     s.bin = none ∧ s.cbin = some [1] := by
   decide
 
+/-! ## The order of effects; interruption between ANY two effects
+
+`compressCalls`, `decompressCalls`, `toScratchCalls` are the call lists of the three functions (equal to the event sequences
+regenerated from the source text on every run: `IblVerif.Tie.C02`); `prims` refines them into primitive effects on the
+directory; `crashCompress … k` etc. is the directory after exactly `k` primitive effects (power loss, `kill -9`, or an
+exception raised by whatever comes next). -/
+
+/-- The step functions of the file-state machine — what the correspondence run compares with the real code and what the
+trace theorems above are about — ARE the interpretation of the effect lists: for every directory, reader, flag and every
+fault point (chunk `j`, failing rename / move) the directory they return is the one reached by the corresponding prefix of
+the primitive effects. -/
+theorem steps_interpret_effect_lists [DecidableEq α] [DecidableEq γ] (c : Codec α γ) (hc : c.Lossless) (s : Fs α γ)
+    (fb : DataName) (keep ov scratch : Bool) (fault : Option Nat) (pf : Bool) :
+    (∀ l, s.bin = some l →
+      (compressFile c s fb keep fault pf).1 = crashCompress c s fb keep (compressCrashPoint l.length fault pf)) ∧
+    (∀ n, HdrOk s → (∀ cs, s.cbin = some cs → n = cs.length) →
+      (toScratch c s fb scratch fault pf).1 = crashToScratch c s fb scratch
+        (toScratchCrashPoint scratch (s.getOut (if scratch then .sbinTemp else .binTemp)).isSome n fault pf) ∧
+      (decompressFile c s fb keep .bin ov fault).1 = crashDecompress c s fb keep ov
+        (decompressCrashPoint (ov && s.bin.isSome) n fault)) :=
+  ⟨fun l hl => compressFile_eq_crash c hc s fb keep fault pf l hl,
+   fun n hh hn => ⟨toScratch_eq_crash c s fb scratch fault pf hh n hn, decompressFile_eq_crash c s fb keep ov fault hh n hn⟩⟩
+
+/-- `compress_file` interrupted after ANY number `k` of primitive effects (inside the chunk loop, between the last chunk and the
+header, between the header and the rename, between the rename and the removal of the source, …), from any directory, for
+both values of `keep_original`:
+the source `x.bin` is intact — or it has been removed, and then (in-place variant only) `x.cbin` is already the complete
+compressed image described by `x.ch` and no `x.cbin_tmp` is left: the source is removed only AFTER the rename;
+`x.cbin` is the file that was there before or the complete new one, never a partial one;
+nothing but `x.cbin_tmp`, `x.cbin`, `x.ch`, `x.bin` is touched. -/
+theorem compress_interrupted_anywhere (c : Codec α γ) (s : Fs α γ) (fb : DataName) (keep : Bool) (k : Nat)
+    (l : List α) (hl : s.bin = some l) :
+    let s' := crashCompress c s fb keep k
+    (s'.bin = some l ∨
+      (keep = false ∧ s'.bin = none ∧ s'.cbin = some (l.map c.enc) ∧ s'.ch = some (l.map c.enc) ∧ s'.cbinTmp = none)) ∧
+    (s'.cbin = s.cbin ∨ (s'.cbin = some (l.map c.enc) ∧ s'.ch = some (l.map c.enc) ∧ s'.cbinTmp = none)) ∧
+    (s'.ch = s.ch ∨ s'.ch = some (l.map c.enc)) ∧
+    s'.binTemp = s.binTemp ∧ s'.sbin = s.sbin ∧ s'.sbinTemp = s.sbinTemp ∧ s'.smeta = s.smeta := by
+  intro s'
+  have h := crashCompress_cases c s fb keep k
+  simp only at h
+  rcases h with h | ⟨l', _, hl', _, h⟩
+  · have : s' = s := h
+    rw [this]; simp [hl]
+  · have e : l' = l := by rw [hl] at hl'; exact (Option.some.inj hl').symm
+    subst e
+    rcases h with ⟨m, _, h⟩ | h | h | ⟨hk, h⟩
+    · have : s' = _ := h
+      rw [this]; simp [hl]
+    · have : s' = _ := h
+      rw [this]; simp [hl]
+    · have : s' = _ := h
+      rw [this]; simp [hl]
+    · have : s' = _ := h
+      rw [this]; simp [hk]
+
+/-- `decompress_to_scratch` (in place or to a scratch directory) interrupted after ANY number of primitive effects: the
+compressed source and its header are untouched, the files of the other directory are untouched, and the target `.bin` is
+what it was before — or (after the very last effect, the move) the complete decompressed recording: no file carrying the
+final name exists unless it is complete. -/
+theorem toScratch_interrupted_anywhere (c : Codec α γ) (s : Fs α γ) (fb : DataName) (scratch : Bool) (k : Nat) :
+    let s' := crashToScratch c s fb scratch k
+    s'.cbin = s.cbin ∧ s'.ch = s.ch ∧
+    (scratch = true → s'.bin = s.bin ∧
+      (s'.sbin = s.sbin ∨ (s.sbin = none ∧ ∃ cs, s.cbin = some cs ∧ s'.sbin = some (cs.map c.dec) ∧ s'.sbinTemp = none))) ∧
+    (scratch = false → s'.sbin = s.sbin ∧
+      (s'.bin = s.bin ∨ (s.bin = none ∧ ∃ cs, s.cbin = some cs ∧ s'.bin = some (cs.map c.dec) ∧ s'.binTemp = none))) := by
+  intro s'
+  have h := crashToScratch_spec c s fb scratch k
+  simp only at h
+  rcases h with h | ⟨cs, _, hcb, _, hpres, h1, h2, h3⟩
+  · exact ⟨h.cbin, h.ch, fun _ => ⟨h.bin, Or.inl h.sbin⟩, fun _ => ⟨h.sbin, Or.inl h.bin⟩⟩
+  · refine ⟨h1, h2, ?_, ?_⟩
+    · intro hs; subst hs
+      simp only [if_true] at h3 hpres
+      exact ⟨h3.1, Or.inr ⟨hpres, cs, hcb, h3.2.1, h3.2.2⟩⟩
+    · intro hs; subst hs
+      simp only [Bool.false_eq_true, if_false] at h3 hpres
+      exact ⟨h3.1, Or.inr ⟨hpres, cs, hcb, h3.2.1, h3.2.2⟩⟩
+
+/-- `decompress_file` (default output `x.bin`) interrupted after ANY number of primitive effects: the compressed source
+`x.cbin` and its header `x.ch` are intact — or (in-place variant only) `x.cbin` has been removed and `x.bin` is already the
+complete decoded recording: the in-place variant removes its source only once the replacement is complete. -/
+theorem decompress_interrupted_anywhere (c : Codec α γ) (s : Fs α γ) (fb : DataName) (keep ov : Bool) (k : Nat) :
+    let s' := crashDecompress c s fb keep ov k
+    (s'.cbin = s.cbin ∧ s'.ch = s.ch) ∨
+    (keep = false ∧ ∃ cs, s.cbin = some cs ∧ s'.bin = some (cs.map c.dec) ∧ s'.cbin = none) :=
+  crashDecompress_spec c s fb keep ov k
+
+/-- The trace theorem with interruptions between ANY two effects: in every state reachable from a directory holding the
+recording `b` by any sequence of calls in scope — each running to its end, or stopped at one of the injected fault points,
+or (compression, decompression to scratch) stopped after an arbitrary number of primitive effects — every file carrying a
+final name is absent or complete, and the recording is held by a complete file. -/
+theorem final_names_complete_any_interruption [DecidableEq α] [DecidableEq γ] (c : Codec α γ) (hc : c.Lossless)
+    (b : List α) (s0 : Fs α γ) (h0 : Published c b s0) (ops : List XOp) (hops : ∀ o ∈ ops, o.inScope) :
+    let s := runX c s0 ops
+    (s.cbin = none ∨ (s.cbin = some (b.map c.enc) ∧ s.ch = some (b.map c.enc))) ∧
+    (s.bin = none ∨ s.bin = some b) ∧
+    (s.sbin = none ∨ s.sbin = some b) ∧
+    (recording c s .bin = some b ∨ recording c s .cbin = some b) := by
+  intro s
+  have h : Published c b s := published_runX c hc b ops s0 h0 hops
+  refine ⟨?_, h.bin, h.sbin, ?_⟩
+  · rcases h.cbin with hn | hs
+    · exact Or.inl hn
+    · exact Or.inr ⟨hs, by have := h.hdr (by simp [hs]); rw [this, hs]⟩
+  · rcases h.held with hb | ⟨hcb, hch⟩
+    · exact Or.inl hb
+    · right; simp [recording, hcb, hch, map_dec_enc c hc b]
+
+/-- Why the header is not part of `compress_interrupted_anywhere`'s "old or complete" statement for `x.cbin`: mtscomp writes
+`x.ch` under its final name BEFORE the rename.  Compress (keeping the original), rewrite `x.bin`, compress again and stop after
+the header was written (4 = 2 chunks + create + header): the stale `x.cbin` is complete and still there, `x.ch` now describes
+the new `x.cbin_tmp` (known finding, same mechanism as `rename_failure_next_to_stale_cbin_counterexample`). -/
+theorem interrupted_after_header_next_to_stale_cbin_counterexample :
+    let c : Codec Nat Nat := ⟨(· + 10), (· - 10)⟩
+    let g := runE c { fs := initBin [1, 2], versions := [[1, 2]], cur := [1, 2] }
+      [.call (.compress .bin true none false), .rewrite [7, 8]]
+    let s := crashCompress c g.fs .bin true 4
+    s.bin = some [7, 8] ∧ s.cbin = some [11, 12] ∧ s.ch = some [17, 18] ∧ s.cbinTmp = some [17, 18] := by
+  decide
+
+/-- The order of the calls, as data (complete finite tables): in `compress_file` the rename of `x.cbin_tmp` precedes the
+removal of the source and follows the compression; in `decompress_file` the decompression precedes the removal of `x.cbin`,
+which precedes that of `x.ch`; in `decompress_to_scratch` the metadata copy and the decompression to the temporary name
+precede the move, and nothing is done to an existing target beyond the copy. -/
+theorem call_order :
+    (∀ keep, (compressCalls keep).idxOf .mtsCompress < (compressCalls keep).idxOf .renameTmp ∧
+      ((compressCalls keep).idxOf .renameTmp < (compressCalls keep).idxOf .unlinkBin ∨ Call.unlinkBin ∉ compressCalls keep)) ∧
+    (∀ keep out ov, (decompressCalls keep out ov).idxOf (.mtsDecompress out ov) < (decompressCalls keep out ov).idxOf .unlinkCbin ∧
+      ((decompressCalls keep out ov).idxOf .unlinkCbin < (decompressCalls keep out ov).idxOf .unlinkCh ∨
+        Call.unlinkCbin ∉ decompressCalls keep out ov)) ∧
+    (∀ scratch, (toScratchCalls scratch false).idxOf (.decompressFile true (if scratch then .sbinTemp else .binTemp) true)
+        < (toScratchCalls scratch false).idxOf (.moveTemp scratch) ∧
+      toScratchCalls scratch true = (if scratch then [.mkdirScratch, .copyMeta] else [])) := by
+  refine ⟨fun keep => ?_, fun keep out ov => ?_, fun scratch => ?_⟩
+  · cases keep <;> decide
+  · cases keep <;> cases out <;> cases ov <;> decide
+  · cases scratch <;> decide
+
+/-! ## Path names (every recording name `x.<ext>`: any non-empty stem `x`, dots allowed inside; `FsPath`) -/
+
+/-- The names the three functions derive with `with_suffix` are SIBLINGS of the recording: from `x.<ext>`,
+`file_tmp = x.cbin_tmp`, `file_out = file_tmp.with_suffix(".cbin") = x.cbin` (the very name `file_bin.with_suffix(".cbin")`
+a reader of `x.meta` looks for), the header `x.ch`; from `x.cbin`, the target `x.bin`, its temporary sibling `x.bin_temp`
+and the copied `x.meta` — also when the stem contains dots (`rec_g0_t0.imec0.ap`) or the word `cbin`. -/
+theorem derived_names_are_siblings (x t : FsPath.Name) (hx : x ≠ []) (ht : t ≠ []) (hd : FsPath.Dotless t) :
+    FsPath.withSuffix (x ++ '.' :: t) FsPath.sCbinTmp = some (x ++ FsPath.sCbinTmp) ∧
+    FsPath.withSuffix (x ++ FsPath.sCbinTmp) FsPath.sCbin = some (x ++ FsPath.sCbin) ∧
+    FsPath.withSuffix (x ++ '.' :: t) FsPath.sCbin = some (x ++ FsPath.sCbin) ∧
+    FsPath.withSuffix (x ++ '.' :: t) FsPath.sCh = some (x ++ FsPath.sCh) ∧
+    FsPath.withSuffix (x ++ '.' :: t) FsPath.sBin = some (x ++ FsPath.sBin) ∧
+    FsPath.withSuffix (x ++ FsPath.sBin) FsPath.sBinTemp = some (x ++ FsPath.sBinTemp) ∧
+    FsPath.withSuffix (x ++ FsPath.sBin) FsPath.sMeta = some (x ++ FsPath.sMeta) := by
+  have h := FsPath.withSuffix_literals x t hx ht hd
+  have h1 := FsPath.withSuffix_literals x ['c', 'b', 'i', 'n', '_', 't', 'm', 'p'] hx (by decide) (by decide)
+  have h2 := FsPath.withSuffix_literals x ['b', 'i', 'n'] hx (by decide) (by decide)
+  exact ⟨h.2.2.1, h1.2.1, h.2.1, h.2.2.2.1, h.1, h2.2.2.2.2.1, h2.2.2.2.2.2⟩
+
+/-- `Reader.is_mtscomp` (`"cbin" in suffix`) on the derived names, for every stem — in particular a stem that itself
+contains `cbin` does not make `x.bin` a compressed file.  (The temporary `x.cbin_tmp` also answers `True`.) -/
+theorem is_mtscomp_on_derived_names (x : FsPath.Name) (hx : x ≠ []) :
+    FsPath.isMtscomp (x ++ FsPath.sCbin) = true ∧ FsPath.isMtscomp (x ++ FsPath.sBin) = false ∧
+    FsPath.isMtscomp (x ++ FsPath.sMeta) = false ∧ FsPath.isMtscomp (x ++ FsPath.sCh) = false ∧
+    FsPath.isMtscomp (x ++ FsPath.sBinTemp) = false ∧ FsPath.isMtscomp (x ++ FsPath.sCbinTmp) = true :=
+  FsPath.isMtscomp_literals x hx
+
+/-- Companion lookup: from the data file, the compressed file or the metadata file of the same recording (any extension
+`<ext>`), `_get_companion_file(·, '.meta')` is the same `x.meta` whenever it exists, and `Reader.open` finds the header
+`x.ch` of `x.cbin` whenever it exists (no glob involved, whatever else the directory holds). -/
+theorem companions_agree (dir : List FsPath.Name) (x t st : FsPath.Name) (hx : x ≠ []) (ht : t ≠ [])
+    (hd : FsPath.Dotless t) :
+    ((x ++ FsPath.sMeta) ∈ dir → FsPath.companion dir (x ++ '.' :: t) FsPath.sMeta st = some (x ++ FsPath.sMeta)) ∧
+    ((x ++ FsPath.sCh) ∈ dir → FsPath.chFile dir (x ++ FsPath.sCbin) st = some (x ++ FsPath.sCh)) :=
+  ⟨fun h => FsPath.companion_direct dir x t _ st hx ht hd (by decide) h,
+   fun h => FsPath.companion_direct dir x ['c', 'b', 'i', 'n'] _ st hx (by decide) (by decide) (by decide) h⟩
+
+/-- The data file `Reader.__init__` chooses, on NAMES, is the abstract `resolve` of the file-state machine: for every
+directory state `s` of the recording `x` (listing `dirOf x s`), handing `x.meta` yields `x.bin` if it exists, else `x.cbin`
+if it exists, else no data file; handing an existing data file yields that file. -/
+theorem resolve_on_names (x st : FsPath.Name) (hx : x ≠ []) (s : Fs α γ) :
+    (∀ fbo, resolve s .metaFile = .ok fbo →
+      FsPath.resolveName (FsPath.dirOf x s) (x ++ FsPath.sMeta) st = some (fbo.map (FsPath.dataName x))) ∧
+    (∀ d : DataName, FsPath.resolveName (FsPath.dirOf x s) (FsPath.dataName x d) st = some (some (FsPath.dataName x d))) := by
+  have hm := FsPath.mem_dirOf x s
+  constructor
+  · intro fbo h
+    rw [FsPath.resolveName_meta _ x st hx hm.1]
+    have hb := hm.2.1
+    have hcb := hm.2.2.1
+    cases h1 : s.bin <;> cases h2 : s.cbin <;> simp [resolve, h1, h2] at h hb hcb <;> subst h <;>
+      simp [hb, hcb, FsPath.dataName]
+  · intro d
+    cases d
+    · exact FsPath.resolveName_data _ x ['b', 'i', 'n'] st hx (by decide) (by decide) (by decide) hm.1
+    · exact FsPath.resolveName_data _ x ['c', 'b', 'i', 'n'] st hx (by decide) (by decide) (by decide) hm.1
+
 /-! ## Non-vacuity -/
 
 /-- A three-chunk recording: in-place compression interrupted at chunk 2, then failing at the rename (source and reader
@@ -451,5 +653,30 @@ example :
     by decide, by decide, by decide, by decide, by decide, by decide⟩
 
 example : recordingVia (⟨id, id⟩ : Codec Nat Nat) (initCbin ⟨id, id⟩ [1, 2]) .metaFile = some [1, 2] := by decide
+
+/-- Non-vacuity of the interruption theorems: a three-chunk recording compressed in place and stopped after 4 effects (all
+chunks written, no header yet), after 5 (header written, not renamed), after 6 (renamed, source still there), after 7 (done);
+and a history mixing a crash between the rename and the unlink with a later complete call. -/
+example :
+    let c : Codec Nat Nat := ⟨(· + 10), (· - 10)⟩
+    let s0 : Fs Nat Nat := initBin [1, 2, 3]
+    (crashCompress c s0 .bin false 4).cbinTmp = some [11, 12, 13] ∧ (crashCompress c s0 .bin false 4).ch = none ∧
+    (crashCompress c s0 .bin false 5).ch = some [11, 12, 13] ∧ (crashCompress c s0 .bin false 5).cbin = none ∧
+    (crashCompress c s0 .bin false 6).cbin = some [11, 12, 13] ∧ (crashCompress c s0 .bin false 6).bin = some [1, 2, 3] ∧
+    (crashCompress c s0 .bin false 7).bin = none ∧
+    (runX c s0 [.crashCompress .bin false 6, .op (.compress .bin false none false), .crashToScratch .cbin true 3,
+                .op (.toScratch .cbin true none false)]).sbin = some [1, 2, 3] ∧
+    (∀ o ∈ [XOp.crashCompress .bin false 6, .op (.compress .bin false none false)], o.inScope) := by
+  refine ⟨by decide, by decide, by decide, by decide, by decide, by decide, by decide, by decide, ?_⟩
+  intro o ho
+  simp at ho
+  rcases ho with rfl | rfl <;> simp [XOp.inScope, Op.inScope]
+
+/-- Non-vacuity of the path theorems: `rec_g0_t0.imec0.ap.bin`-like names (several dots) and a stem containing `cbin`. -/
+example :
+    FsPath.withSuffix "rec.imec0.ap.bin".toList FsPath.sCbinTmp = some "rec.imec0.ap.cbin_tmp".toList ∧
+    FsPath.isMtscomp "my.cbin.ap.bin".toList = false ∧ FsPath.isMtscomp "my.cbin.ap.cbin".toList = true ∧
+    FsPath.suffix "rec.".toList = [] ∧ FsPath.suffix ".bin".toList = [] := by
+  refine ⟨by decide, by decide, by decide, by decide, by decide⟩
 
 end IblVerif.C02
